@@ -516,16 +516,26 @@ fn compile_vote_delegation_certificate(
 }
 
 fn compile_certs(tx: &tir::Tx, network: Network) -> Result<Vec<primitives::Certificate>, Error> {
-    tx.adhoc
-        .iter()
-        .filter_map(|x| match x.name.as_str() {
-            "vote_delegation_certificate" => {
-                let cert = compile_vote_delegation_certificate(x, network);
-                Some(cert)
-            }
-            _ => None,
-        })
-        .collect::<Result<Vec<_>, _>>()
+    let all = tx.adhoc.iter().filter_map(|x| match x.name.as_str() {
+        "vote_delegation_certificate" => {
+            let cert = compile_vote_delegation_certificate(x, network);
+            Some(cert)
+        }
+        _ => None,
+    });
+
+    // certificates form an (ordered) set: the same delegation may be written more than once
+    let mut certs = vec![];
+
+    for cert in all {
+        let cert = cert?;
+
+        if !certs.contains(&cert) {
+            certs.push(cert);
+        }
+    }
+
+    Ok(certs)
 }
 
 fn compile_reference_inputs(tx: &tir::Tx) -> Result<Vec<primitives::TransactionInput>, Error> {
